@@ -38,6 +38,7 @@ R(a) == [a |-> a, h |-> 0, ok |-> FALSE, kept |-> 0, total |-> 0, n |-> 0, req |
 \* Sample > 0 (generation runs): only Sample randomly chosen requests are offered per step, so
 \* that the simulator does not enumerate all of them for every step of every behaviour
 DoUpdate  == \E c \in (IF Sample > 0 THEN RandomSubset(Sample, ReqChoices) ELSE ReqChoices) : LET a == ReqSeq(c) IN Step([R("Update") EXCEPT !.req = a], Update(w, a))
+DoUpdateRej == \E c \in (IF Sample > 0 THEN RandomSubset(Sample, ReqChoices) ELSE ReqChoices) : LET a == ReqSeq(c) IN Step([R("UpdateRejected") EXCEPT !.req = a], UpdateRejected(w, a))
 DoScrapeOK == \E h \in Targets, p \in (IF Sample > 0 THEN RandomSubset(1, Payloads) ELSE Payloads) :
                 Step([R("Scrape") EXCEPT !.h = h, !.ok = TRUE, !.kept = p[1], !.total = p[2]], Scrape(w, h, TRUE, p[1], p[2]))
 DoScrapeFail == \E h \in Targets : Step([R("Scrape") EXCEPT !.h = h], Scrape(w, h, FALSE, 0, 0))
@@ -46,7 +47,7 @@ DoTick    == w.clock < MaxClock /\ Step(R("Tick"), Tick(w))
 DoSetHead == \E n \in {0, 7, 40} : n # w.promHead /\ Step([R("SetHead") EXCEPT !.n = n], SetHead(w, n))
 
 Init == w = Restart(Init0) /\ hist = <<>>     \* a sidecar always loads its (here absent) store at start
-Next == Len(hist) < MaxLen /\ (DoUpdate \/ DoScrapeOK \/ DoScrapeFail \/ DoRestart \/ DoTick \/ DoSetHead)
+Next == Len(hist) < MaxLen /\ (DoUpdate \/ DoUpdateRej \/ DoScrapeOK \/ DoScrapeFail \/ DoRestart \/ DoTick \/ DoSetHead)
 Spec == Init /\ [][Next]_vars
 View == w
 \* generation: a behaviour is exported when it reaches MaxLen (checked as an "invariant", which
@@ -63,19 +64,21 @@ IdleOK  == /\ (w.idleAt # -1) <=> (w.assign = <<>>)
 \* step properties, phrased on the last recorded operation
 LastIs(a) == hist' # hist /\ hist'[Len(hist')].a = a
 KeptStats ==
-  [][LastIs("Update") =>
+  [][(LastIs("Update") \/ LastIs("UpdateRejected")) =>
        \A h \in DOMAIN w.status \cap DOMAIN w'.status :
           /\ w'.status[h].health = w.status[h].health /\ w'.status[h].err = w.status[h].err
           /\ w'.status[h].series = w.status[h].series /\ w'.status[h].total = w.status[h].total
           /\ w'.status[h].win = w.status[h].win
           /\ w'.status[h].times = (IF w.status[h].state = "" /\ w'.status[h].state = "in_transfer" THEN 0 ELSE w.status[h].times)]_vars
 NewStart ==
-  [][LastIs("Update") =>
+  [][(LastIs("Update") \/ LastIs("UpdateRejected")) =>
        \A h \in (DOMAIN w'.status) \ DOMAIN w.status :
           /\ w'.status[h].health = "unknown" /\ w'.status[h].times = 0
           /\ w'.status[h].series = Est(h).series /\ w'.status[h].total = Est(h).total]_vars
+\* (a restart resumes what was acknowledged: after rejected updates that may be another - earlier - idle instant)
+InStore == w.store.has /\ w.store.assign = w.assign /\ w.store.idleAt = w.idleAt
 IdleKept ==
-  [][(w.idleAt # -1 /\ w'.assign = <<>>) => w'.idleAt = w.idleAt]_vars
+  [][(w.idleAt # -1 /\ w'.assign = <<>> /\ (LastIs("Restart") => InStore)) => w'.idleAt = w.idleAt]_vars
 IdleSet ==
   [][(w.idleAt = -1 /\ w'.assign = <<>> /\ ~LastIs("Restart")) => w'.idleAt = w.clock]_vars
 (* C14 on the model *)
